@@ -135,6 +135,44 @@ func loadWorld(repo string, pkgPaths []string, specDir string) (*World, error) {
 			}
 		}
 	}
+	// contracts of the repository's other packages that the loaded ones import: used at call sites as the
+	// callee's contract (they are verified by the checks that load those packages with their bodies)
+	listed := map[string]bool{}
+	for _, p := range pkgs {
+		listed[p.PkgPath] = true
+	}
+	modPrefix := ""
+	for _, p := range pkgs {
+		if p.Module != nil {
+			modPrefix = p.Module.Path
+		}
+	}
+	seenDep := map[string]bool{}
+	var walk func(p *packages.Package)
+	walk = func(p *packages.Package) {
+		for _, imp := range p.Imports {
+			if seenDep[imp.PkgPath] {
+				continue
+			}
+			seenDep[imp.PkgPath] = true
+			if modPrefix == "" || !(imp.PkgPath == modPrefix || strings.HasPrefix(imp.PkgPath, modPrefix+"/")) {
+				continue
+			}
+			if !listed[imp.PkgPath] && len(imp.GoFiles) > 0 {
+				f := filepath.Join(filepath.Dir(imp.GoFiles[0]), "verif_contracts.go")
+				if _, err := os.Stat(f); err == nil {
+					if err := w.CS.ParseContractFile(f, imp.PkgPath); err != nil {
+						// vocabulary of another check that this one does not load: not an error here
+						w.Note("contracts of imported package " + imp.PkgPath + " not usable in this run: " + err.Error())
+					}
+				}
+			}
+			walk(imp)
+		}
+	}
+	for _, p := range pkgs {
+		walk(p)
+	}
 	if err := w.prepareAxioms(); err != nil {
 		return nil, err
 	}
@@ -293,6 +331,8 @@ func cmdCheck(args []string) int {
 	notDecided := fs.String("notdecided", "", "file with the not-decided clauses of the property")
 	dbg := fs.Bool("debug", false, "panic on engine errors")
 	mutant := fs.String("mutant", "", "apply a mutant (JSON) through an overlay")
+	sigsIn := fs.String("sigs", "/verif/spec/sigs.json", "snapshot of parameter/local names the contracts were written against")
+	sigsOut := fs.String("sigsout", "", "update the snapshot with the names found in this run")
 	fs.Parse(args)
 	if *mutant != "" {
 		if _, err := applyMutant(*repo, *mutant); err != nil {
@@ -301,6 +341,7 @@ func cmdCheck(args []string) int {
 		}
 	}
 	debugPanics = *dbg
+	newSigs := map[string]sigSnap{}
 	t0 := time.Now()
 	seed := 0
 	if s := os.Getenv("VERIF_SEED"); s != "" {
@@ -343,7 +384,8 @@ func cmdCheck(args []string) int {
 		}
 		sp := w.SSAPkgs[fc.PkgPath]
 		if sp == nil {
-			toolErrors = append(toolErrors, fmt.Sprintf("contract for %s: package %s not loaded", fc.Name, fc.PkgPath))
+			// an imported package's contract: used at call sites here, verified by the checks that load that package
+			w.Note("contract of " + fc.PkgPath + "." + fc.Name + " is used as given in this run (its package is imported, not loaded with bodies)")
 			continue
 		}
 		if fnIndex[fc.PkgPath] == nil {
@@ -365,6 +407,16 @@ func cmdCheck(args []string) int {
 		}
 		ex := &Exec{w: w, fn: fn, fc: fc, pkg: sp, maxPaths: 4000, uncontracted: map[string]int{}, usedContracts: map[string]bool{}}
 		ex.guards = w.guardsFor(sp, *prop)
+		if w.sigs == nil {
+			w.sigs = loadSigs(*sigsIn)
+		}
+		if *sigsOut != "" {
+			var ps []string
+			for _, p := range fn.Params {
+				ps = append(ps, p.Name())
+			}
+			newSigs[fn.String()] = sigSnap{Params: ps, Locals: localNames(fn)}
+		}
 		ex.Run()
 		rep.Paths = ex.paths
 		rep.Returns = ex.returns
@@ -391,6 +443,11 @@ func cmdCheck(args []string) int {
 			toolErrors = append(toolErrors, fn.String()+": no path reaches a normal return (vacuous)")
 		}
 		obs = append(obs, ex.obs...)
+	}
+	if *sigsOut != "" {
+		if err := saveSigs(*sigsOut, newSigs); err != nil {
+			fmt.Fprintln(os.Stderr, "govc: sigs:", err)
+		}
 	}
 	// lemmas
 	lemmaEx := &Exec{w: w, fc: &FuncContract{}, uncontracted: map[string]int{}, usedContracts: map[string]bool{}}
